@@ -804,6 +804,10 @@ def bl3(ctx, R):
             seen_calls.add((id(e.node), callee.qual))
             if callee.module.name not in READ_SIDE and fi.module.name not in READ_SIDE:
                 continue
+            if any(isinstance(x, ast.Attribute) and x.value is e.node and x.attr in ("pack", "pack_into") for x in ast.walk(fi.node)):
+                # a prepared struct that is only used to PACK: an encoder (the library's own little-endian serialisation, decided by
+                # BL4 and the writer rules), not a parse site
+                continue
             bound = dict(flow._bind(callee, e.node, e.kind))
             for p in likes:
                 key = "%s::%s(%s=)" % (fi.qual, unparse(e.node.func), p)
@@ -1470,6 +1474,8 @@ def bl4(ctx, R):
                 key_ = "channel_data.TimestampDataReceiver::store self.data[...]"
                 if k_ == "converted":
                     R.ok(key_, fi.where(n), "stores converted datetime64 values")
+                elif k_ == "records" and _same_layout_guard(prog, fi, n):
+                    R.ok(key_, fi.where(n), "whole records are copied only where the chunk's dtype equals the storage dtype (same field order and byte order)")
                 elif k_ == "records":
                     R.violation(key_, fi.where(n), "raw timestamp records are copied positionally (`%s`): NumPy assigns structured arrays by field position, and "
                                 "big-endian chunks have the fields in the opposite order" % unparse(n))
@@ -1485,6 +1491,24 @@ def bl4(ctx, R):
     if n_assign < 1:
         R.unrecognised("channel_data.TimestampDataReceiver::stores", "%s:%d" % (tdr.module.relpath, tdr.node.lineno),
                        "no subscript store into self.data in the timestamp receiver or its helpers: how chunks are copied was not recognised")
+
+
+def _same_layout_guard(prog, fi, node):
+    """the statement runs only where a dtype of the incoming data was compared equal with a dtype (of the storage): then a positional
+    copy of structured records is a copy by name as well"""
+    from .sym import Sym, contains
+    try:
+        _env, guards = Sym(prog, fi, fi.cls, inline=False).env_at(node)
+    except Exception:
+        return False
+    def mentions_dtype(t):
+        return contains(t, lambda y: isinstance(y, tuple) and ((len(y) == 3 and y[0] == "attr" and y[2] == "dtype") or
+                                                                 (y and y[0] == "call" and y[1] == "getattr" and len(y) > 2 and ("const", "dtype") in y[2]) or
+                                                                 (len(y) == 2 and y[0] == "self" and "dtype" in str(y[1]))))
+    for g in guards:
+        if isinstance(g, tuple) and len(g) == 4 and g[0] == "cmp" and g[1] == "==" and mentions_dtype(g[2]) and mentions_dtype(g[3]):
+            return True
+    return False
 
 
 def _endian_branches(fi):
